@@ -183,6 +183,60 @@ def scenario(ctx, stream, rng, version, op, seg_kind, noise):
     ctx.case(stream, key=(version, op, seg_kind, noise, str(want), str(dev_state)), sample={k: inp[k] for k in ("version", "op", "segmentation", "noise")})
 
 
+def stale_scenario(ctx, stream, rng, version):
+    """an OLDER state frame that the device pushed while the connection was idle sits in the receive queue when
+    the next exchange starts: the exchange's own (newer) response must win, and a later single-attribute apply
+    must not write the stale values back"""
+    import asyncio
+    token, key = rb(rng, 64), rb(rng, 32)
+    device_id = rng.randrange(2 ** 48)
+    old_state, cur_state = rand_state(rng), rand_state(rng)
+    model = specac.SpecAC(ctx, state=cur_state, display=True, style=rng.choice(["crc", "sum"]))
+    dev = simdev.SimDevice(version=version, device_id=device_id, token=token if version == 3 else None,
+                           key=key if version == 3 else None, responder=model)
+    res = {}
+
+    async def go(loop, net):
+        net.add_tcp(IP, 6444, dev)
+        ac = AC(ip=IP, port=6444, device_id=device_id)
+        if version == 3:
+            await ac.authenticate(token, key)
+        await ac.refresh()
+        res["first"] = read_attrs(ac)
+        # the device pushes a status frame that carries an OLDER state (e.g. a delayed notification)
+        saved = dict(model.state)
+        model.state.update(old_state)
+        stale = model.status_frame(msgid=rng.randrange(256), frame_type=rng.choice([3, 4, 5]))
+        model.state.clear(); model.state.update(saved)
+        cid = max(dev.conns)
+        dev.unsolicited(cid, [stale], delay=0.01, counter=rng.randrange(4096))
+        await asyncio.sleep(0.2)
+        await ac.refresh()
+        res["client"] = read_attrs(ac)
+        # now the user changes one attribute only
+        ac.power_state = not ac.power_state
+        await ac.apply()
+        res["device"] = dict(model.state)
+    try:
+        vloop.run(go)
+    except Exception as e:  # noqa
+        res["exc"] = type(e).__name__ + ": " + str(e)[:80]
+    inp = {"version": version, "op": "refresh-after-stale-push", "device_state": cur_state, "stale_state": old_state}
+    if "exc" in res:
+        ctx.violate(stream, inp, res["exc"], "completed", "end-to-end exchange failed")
+    else:
+        if res["client"] != cur_state:
+            ctx.violate(stream, inp, {"diff": {k: res["client"][k] for k in cur_state if res["client"][k] != cur_state[k]}},
+                        "the device's current state", "refresh reports an older pushed state instead of the state the device is in")
+        want = dict(cur_state); want["power"] = 1 - cur_state["power"]
+        if res["device"] != want:
+            ctx.violate(stream, inp, {k: res["device"][k] for k in want if res["device"][k] != want[k]},
+                        {k: want[k] for k in want if res["device"][k] != want[k]},
+                        "a single-attribute apply after a stale push changed other settings of the device")
+    ctx.count(f"{stream}:v{version}")
+    ctx.case(stream, key=(version, str(old_state), str(cur_state)), sample={"version": version, "op": inp["op"]})
+
+
 def _pred(name):
     return lambda v: isinstance(v.get("observed"), dict) and v["observed"].get("mechanism") == name
 
@@ -205,6 +259,9 @@ def run(ctx):
                 for noise in (False, True):
                     for _ in range(n):
                         scenario(ctx, "fullstack", rng, version, op, seg, noise)
+    for version in (2, 3):
+        for _ in range(10 if ctx.tier == "quick" else 200):
+            stale_scenario(ctx, "stale_push", rng, version)
 
 
 def search(ctx):
